@@ -4,6 +4,7 @@
 package vrep
 
 import (
+	"runtime/debug"
 	"encoding/json"
 	"fmt"
 	"os"
@@ -170,7 +171,7 @@ func (r *Result) Write() {
 // Guard converts a harness panic into an internal error (exit 2).
 func (r *Result) Guard() {
 	if e := recover(); e != nil {
-		r.Internal = fmt.Sprint(e)
+		r.Internal = fmt.Sprintf("%v\n%s", e, debug.Stack())
 		r.Write()
 	}
 }
